@@ -190,6 +190,11 @@ def run(ctx):
                          "abstract execution of the page finaliser", "%s: %s" % (type(ex).__name__, ex))
     ctx.floor("C05 page finaliser configurations", nconf, 40)
 
+    # the stored CRC is the IEEE CRC only if the lookup tables are built before they are read
+    from ..rules import lazyinit
+    nl, inst = lazyinit.check(ctx, ["src/util/crc32.c"])
+    ctx.floor("C05 lazily initialised tables in crc32.c", len(inst), 1)
+
     # compressed payloads: emitted match offsets fit their 16-bit field (shared rule with C09.3)
     offset_width_rule(ctx)
 
